@@ -459,6 +459,7 @@ type c10Step struct {
 	state   []*pb.MeshEntry
 	stErr   error
 	ran     bool
+	badErr  error // logbad: what Log returned
 }
 
 func c10Query(l *nflog.Log, key int) c10Q {
@@ -521,7 +522,7 @@ func c10ValidOps(sc c10ModelScenario, res *pbt.Result) bool {
 				}
 				seen[sc.Entries[ix].Key] = true
 			}
-		case "gc", "reload", "query":
+		case "gc", "reload", "query", "logbad":
 		default:
 			res.Fail("generator", "op %d: unknown kind %q", i, op.Kind)
 			return false
@@ -614,6 +615,10 @@ func execC10Model(sc c10ModelScenario) (res pbt.Result) {
 				}
 				st.pre = c10Query(l, op.Key)
 				st.err = l.Log(c10Receiver(op.Key), c10Group(op.Key), append([]uint64(nil), op.Firing...), append([]uint64(nil), op.Resolved...), store, time.Duration(op.ExpirySec)*time.Second)
+			case "logbad":
+				store := nflog.NewStore(nil)
+				store.SetStr("thread", "bad\xffvalue")
+				st.badErr = l.Log(c10Receiver(op.Key), c10Group(op.Key), append([]uint64(nil), op.Firing...), nil, store, 0)
 			case "merge":
 				var blob []byte
 				for _, ix := range op.Blob {
@@ -711,6 +716,11 @@ func execC10Model(sc c10ModelScenario) (res pbt.Result) {
 			return res
 		}
 		switch op.Kind {
+		case "logbad":
+			// rejected with an error, and (checked below like after every step) nothing changed
+			// (no error is fine when Log skips the call because a stored entry is from the future; either way the
+			// log must hold what it held before)
+			classes["unencodable-log"] = true
 		case "log":
 			exp := map[string]c10Datum{}
 			if op.Base == "query" {
@@ -1069,7 +1079,7 @@ func genC10Model(t *rapid.T) c10ModelScenario {
 	var cum int64
 	dts := make([]int64, nOps)
 	for i := range kinds {
-		kinds[i] = rapid.SampledFrom([]string{"log", "log", "log", "merge", "merge", "merge", "merge", "merge", "gc", "gc", "reload", "reload", "query"}).Draw(t, "kind")
+		kinds[i] = rapid.SampledFrom([]string{"log", "log", "log", "merge", "merge", "merge", "merge", "merge", "gc", "gc", "reload", "reload", "query", "logbad"}).Draw(t, "kind")
 		dts[i] = rapid.SampledFrom(c10Dts).Draw(t, "dt")
 		cum += dts[i]
 		anchors[i] = cum
@@ -1082,6 +1092,9 @@ func genC10Model(t *rapid.T) c10ModelScenario {
 			op = genC10LogOp(t, keySpace)
 		case "merge":
 			op = c10Op{Kind: "merge", Blob: genC10Blob(t, sc.Entries)}
+		case "logbad":
+			// a Log call whose receiver data cannot be encoded (a string that is not valid UTF-8)
+			op = c10Op{Kind: "logbad", Key: rapid.IntRange(0, keySpace-1).Draw(t, "badKey"), Firing: []uint64{99}}
 		case "reload":
 			op = c10Op{Kind: "reload", ViaFile: rapid.IntRange(0, 3).Draw(t, "viaFile") == 0}
 		default:
@@ -1093,7 +1106,7 @@ func genC10Model(t *rapid.T) c10ModelScenario {
 	return sc
 }
 
-const c10ModelRule = "history of 1-24 (thorough: 1-60) operations on one real nflog.Log in a virtual-time bubble over 2 groups x 2 receiver indices: local Log (firing/resolved hashes, store nil / fresh / derived from the queried entry and edited, receiver data of kinds int/float/string, expiry 0 or 1-300 s), Merge of full-state blobs (1-4 versions, distinct keys per blob) drawn with repetition from 1-10 (thorough: 1-24) versions authored by a second real Log at its own instants or hand-built (arbitrary expiry, legacy fields), GC, snapshot reload via reader or file, Query; advances 0-90 s, retention 5-120 s; all timestamps distinct and no expiry equal to an operation instant (ms residues). After every step every key's Query, the decoded MarshalBinary state and the broadcast of a local Log are compared with the reference LWW model (DESIGN A.3). Non-trivial: the history contains a merged version rejected as older or as expired AND a GC that removed something or a reload of a non-empty log."
+const c10ModelRule = "history of 1-24 (thorough: 1-60) operations on one real nflog.Log in a virtual-time bubble over 2 groups x 2 receiver indices: local Log (firing/resolved hashes; one kind in fourteen is a Log whose receiver data is not valid UTF-8 and which must fail without changing anything; store nil / fresh / derived from the queried entry and edited, receiver data of kinds int/float/string, expiry 0 or 1-300 s), Merge of full-state blobs (1-4 versions, distinct keys per blob) drawn with repetition from 1-10 (thorough: 1-24) versions authored by a second real Log at its own instants or hand-built (arbitrary expiry, legacy fields), GC, snapshot reload via reader or file, Query; advances 0-90 s, retention 5-120 s; all timestamps distinct and no expiry equal to an operation instant (ms residues). After every step every key's Query, the decoded MarshalBinary state and the broadcast of a local Log are compared with the reference LWW model (DESIGN A.3). Non-trivial: the history contains a merged version rejected as older or as expired AND a GC that removed something or a reload of a non-empty log."
 
 func TestC10Model(t *testing.T) {
 	pbt.Run(t, pbt.Spec[c10ModelScenario]{
